@@ -10,6 +10,7 @@
   `entry_points` instance check of harness/props/c19.py only.
 -/
 import Proofs.Lemmas.Support
+import Proofs.Lemmas.ComposeShapes
 
 namespace C19
 open Support
@@ -299,5 +300,32 @@ example : ensure1dAll [[7], [7, 2]] = .error .valueError := rfl
 example : ensureEqualDims [[7, 2], [7, 2, 3]] none = .ok () := rfl
 example : ensureEqualDims [[7, 1], [6, 1]] (some 0) = .error .valueError := rfl
 example : ensureEqualDims [[7], [7, 2], []] (some 0) = .error .indexError := rfl
+
+/-! ### Link to the spectra model (C09 / C11)
+
+`EmdModel/Spectra.lean` carries its own copies of `ensure_2d` and `ensure_equal_dims` (`ensure2d`,
+`equalDimsAll`, `equalDimsAt`, applied to the two / three shapes handed to `hilberthuang` and
+`holospectrum`).  They are the routines of this model (outcome `none` = IndexError, `some false` =
+ValueError, `some true` = accepted), so the accept / reject theorems above hold of the shape checks the
+spectra model performs.  Helper lemmas: Proofs/Lemmas/ComposeShapes.lean. -/
+theorem spectra_shape_checks_are_support_routines :
+    (∀ s, Spectra.ensure2d s = ensure2d s) ∧
+    (∀ s0 rest, ComposeShapes.toExcept (Spectra.equalDimsAll (s0 :: rest)) = ensureEqualDims (s0 :: rest) none) ∧
+    (∀ s0 rest d, ComposeShapes.toExcept (Spectra.equalDimsAt (s0 :: rest) d) = ensureEqualDims (s0 :: rest) (some d)) :=
+  ⟨ComposeShapes.ensure2d_agree, ComposeShapes.equalDimsAll_agree, ComposeShapes.equalDimsAt_agree⟩
+
+/-- The agreement is stated for a non-empty list of arrays on purpose: on the empty list the two
+    models differ (negation witness).  Against the code (`ensure_equal_dims([], [], f, dim)`):
+    `dim=None` raises IndexError (`to_check[0]`) — this model is right, the spectra copy is not;
+    `dim=d` passes silently — the spectra copy is right, this model (`IndexError`) is not.
+    Neither model is ever applied to an empty list by its property (C19's theorems quantify over
+    `s0 :: rest`, the spectra model passes two or three shapes). -/
+theorem spectra_shape_checks_empty_list_differ :
+    ComposeShapes.toExcept (Spectra.equalDimsAll []) ≠ ensureEqualDims [] none ∧
+    ∀ d, ComposeShapes.toExcept (Spectra.equalDimsAt [] d) ≠ ensureEqualDims [] (some d) :=
+  ComposeShapes.empty_list_differs
+
+example : ComposeShapes.toExcept (Spectra.equalDimsAt [[7, 2], [7, 2, 3], [6, 2, 3]] 0) = .error .valueError := rfl
+example : ComposeShapes.toExcept (Spectra.equalDimsAll [[7, 2], [7]]) = .error .indexError := rfl
 
 end C19
